@@ -596,6 +596,21 @@ func mutateConfig(t *rapid.T, base []PoolT) []PoolT {
 	if len(out) == 0 {
 		out = append(out, base[0])
 	}
+	if rapid.IntRange(0, 3).Draw(t, "narrowNodeSubnets") == 0 {
+		// the administrator re-states the node subnets with a longer prefix (every node of the topology stays inside): the subnet
+		// of a node is a different CIDR than under the previous configuration
+		narrow := map[string]string{"10.49.27.0/24": "10.49.27.0/25", "10.49.28.0/26": "10.49.28.0/27", "10.173.13.0/24": "10.173.13.0/25",
+			"10.48.0.0/16": "10.48.0.0/17"}
+		for i := range out {
+			ns := append([]string{}, out[i].NodeSubnets...)
+			for j, c := range ns {
+				if n, ok := narrow[c]; ok {
+					ns[j] = n
+				}
+			}
+			out[i].NodeSubnets = ns
+		}
+	}
 	return out
 }
 
